@@ -52,6 +52,8 @@ fn rand_case(rng: &mut Rng, s: &str) -> String { s.chars().map(|c| if rng.bool()
 /// a numeric literal denoting `v` in a random notation (signed contexts allow negatives)
 pub fn num(rng: &mut Rng, v: i64) -> String {
     let zeros = |rng: &mut Rng| "0".repeat(rng.below(3) as usize);
+    // zero also has minus-signed spellings (a signed token of value 0 fits every field, signed or unsigned)
+    if v == 0 && rng.chance(1, 3) { return match rng.below(3) { 0 => format!("-{}0", zeros(rng)), 1 => format!("#-{}0", zeros(rng)), _ => format!("{}-{}0", if rng.bool() { "x" } else { "X" }, zeros(rng)) }; }
     if v < 0 {
         match rng.below(3) { 0 => format!("-{}{}", zeros(rng), -v), 1 => format!("#-{}{}", zeros(rng), -v), _ => format!("{}-{}{:X}", if rng.bool() { "x" } else { "X" }, zeros(rng), -v) }
     } else {
